@@ -8,7 +8,7 @@
    case is c01_refuted_retrybatch). *)
 From Coq Require Import List ZArith Bool.
 From SV Require Import Producer.Msg Producer.Actors Producer.Compose Producer.Weights Producer.Global
-                       Producer.Shape Producer.Conservation Producer.Shutdown Producer.Progress Producer.Examples.
+                       Producer.Shape Producer.Conservation Producer.Shutdown Producer.Progress Producer.Markers Producer.Examples.
 Import ListNotations.
 Open Scope Z_scope.
 
@@ -58,6 +58,37 @@ Theorem c01_sync : forall c, c_fix_rb c = true -> forall sched i, submissions i 
   (g_woken (run c sched) = true -> outcomes i (run c sched) = 1).
 Proof. exact sync_outcome. Qed.
 Print Assumptions c01_sync.
+
+(* With fixes/c04_fin_not_buffered.patch (a broker worker bounces a fin it is not refusing): everything a broker
+   worker holds -- buffer, the message parked in waitForSpace, sets on the bridge, the set in flight, answered
+   sets -- consists of application messages only, for every configuration (idempotent included) and schedule.
+   (Weight form: Markers.bside_data_only, which also covers the retryBatch tasks.) *)
+Theorem c01_buffer_data_only : forall c, c_fix_rb c = true -> forall sched b x, nth_error (g_bps (run c sched)) b = Some x ->
+  (forall k l m, In (k, l) (s_parts (b_buf (i_st x))) -> In m l -> is_data m = true) /\
+  (forall m, b_wait (i_st x) = WOver m \/ b_wait (i_st x) = WForce m -> is_data m = true) /\
+  (forall st k l m, In st (i_bridge x) -> In (k, l) (s_parts st) -> In m l -> is_data m = true) /\
+  (forall st k l m, i_infl x = Some st -> In (k, l) (s_parts st) -> In m l -> is_data m = true) /\
+  (forall st r k l m, In (st, r) (i_resp x) -> In (k, l) (s_parts st) -> In m l -> is_data m = true).
+Proof. exact broker_side_data_only. Qed.
+Print Assumptions c01_buffer_data_only.
+
+Theorem c01_broker_side_weight : forall c, c_fix_rb c = true -> forall sched, bside fnd (run c sched) = 0.
+Proof. exact bside_data_only. Qed.
+Print Assumptions c01_broker_side_weight.
+
+(* every message anywhere in the pipeline, and every reported one, carries one of the four flag values *)
+Theorem c01_flags_wellformed : forall c, c_fix_rb c = true -> forall sched,
+  total fwf (run c sched) = 0 /\ evs_w fwf (g_events (run c sched)) = 0.
+Proof. exact all_wf. Qed.
+Print Assumptions c01_flags_wellformed.
+
+(* no marker is ever reported successful: every success event names an application message.
+   PARTIAL with respect to Markers.markers_never_reported_statement (no event at all names a marker): the excluded
+   class is error events for a fin chaser at three sites that need C02's chaser invariant (see Markers.v) *)
+Theorem c01_markers_never_reported_partial : forall c, c_fix_rb c = true -> forall sched m x,
+  In (Ev true m x) (g_events (run c sched)) -> is_data m = true.
+Proof. exact success_names_application_message. Qed.
+Print Assumptions c01_markers_never_reported_partial.
 
 (* progress, partial (no fairness/timing): dispatcher and retry handler consume a non-empty input; with
    inFlight = 0 after AsyncClose the shutdown goroutine wakes and closes.  NOT covered: that messages held by a
